@@ -54,8 +54,15 @@ func scenC17(e *Env) func() {
 		for _, n := range c.Cuts {
 			pm := Pick(e, 0, 0, 0, 1, 50, 700)
 			sent += n
-			if p.ReadTimeoutMs > 0 && sent > c.Before*40+120 && e.Chance(30) {
-				pm = 3000 // the tail may dawdle past ReadTimeout (the requests themselves never do: pauses stay below it)
+			if p.ReadTimeoutMs > 0 {
+				// ReadTimeout covers the whole read of a request: the requests never dawdle
+				// (their pauses add up to far less), only the tail behind the hijacking request may
+				if pm > 50 {
+					pm = 50
+				}
+				if sent > c.Before*40+120 && e.Chance(30) {
+					pm = 3000
+				}
 			}
 			c.PauseMs = append(c.PauseMs, pm)
 		}
